@@ -367,6 +367,8 @@ def generated_paths():
                    'EMPTY_LIST;%s;EMPTY_TUPLE;%s;TUPLE2;APPEND' % (pu, ge), 'EMPTY_LIST;%s;MARK;%s;TUPLE;APPEND' % (pu, ge)]
             if v >= 4:
                 al += ['EMPTY_SET;%s;MARK;%s;ADDITEMS' % (pu, ge), 'EMPTY_SET;DUP;%s;MARK;NONE;ADDITEMS' % pu]
+        if v < 2:
+            al = [a for a in al if 'TUPLE2' not in a]       # TUPLE2 is a protocol-2 opcode
         if v < 1:
             al = [a.replace('EMPTY_LIST', 'MARK;LIST').replace('EMPTY_DICT', 'MARK;NONE;NONE;DICT').replace('EMPTY_TUPLE', 'MARK;TUPLE') for a in al if 'TUPLE2' not in a and 'APPENDS' not in a]
         for a in al:
